@@ -130,7 +130,7 @@ func (fc *FnCtx) query(o *Oblig) string {
 		use := false
 		switch {
 		case o.blk == -2:
-			use = !f.isAssert
+			use = !f.isAssert && !f.isExit
 		case f.blk == -1:
 			use = o.blk != -1 || f.seq < o.seq
 		case f.blk == o.blk:
@@ -330,9 +330,9 @@ func (e *Engine) solveAll(obs []*Oblig, dir string, t1, t2 int, workers int) {
 		// many failures at once mean the code changed shape, not that the machine was busy
 		return
 	}
-	long := 4 * t2
-	if long < 60 {
-		long = 60
+	long := 2 * t2
+	if long < 40 {
+		long = 40
 	}
 	sem := make(chan struct{}, 4)
 	var wg2 sync.WaitGroup
